@@ -272,7 +272,7 @@ fn bm_step<const N: u32, const CAP: u32>() {
     core::mem::forget(b);
 }
 
-// @harness props=C14 tier=thorough timeout=3600 mem=24
+// @harness props=C14 tier=thorough timeout=3600 mem=24 attempt=1
 // @desc one step of BtreeBitmap::{alloc,set,clear} on a multi-level bitmap from an arbitrary state satisfying the summary invariant (every upper-level bit = "child word is full"): alloc returns and sets exactly the lowest clear bit below len, or None when full; set/clear change exactly one leaf bit; the summary invariant is re-established; has_unset / count_unset agree with the raw words
 // @functions BtreeBitmap::{alloc,find_first_unset,set,clear,update_to_root,has_unset,count_unset}, U64GroupedBitmap::{first_unset,set,clear,any_unset,count_unset}
 // @bound bitmap length / capacity as named (2-, 3-level trees, up to three leaf words); all leaf words, the operation and the index arbitrary
